@@ -87,13 +87,17 @@ def c02(tier):
     ], assumptions=BASE_ASSUME + ["the wire tap hook (verifWire) reports exactly the bytes of successful transport writes"],
         extra=[lambda: writer.suite_wire("C02", tier),
                # "always" also covers concurrent WriteControl callers and the reader's replies (frames stay whole and well-formed)
-               lambda: conc.run_conc_check("C02", tier, 300 if q else 8000, 40 if q else 800, light=True)])
+               lambda: conc.run_conc_check("C02", tier, 300 if q else 8000, 120 if q else 2000, light=True)])
 
 
 def c09(tier):
     q = tier == "quick"
     return writer.run_writer_check("C09", tier, [
         dict(mc=(W, wcfg("close", q)), max_progs=2500 if q else 124800, mult=1),
+        # a close after a write FAILURE is refused like everything else and stays refused (no close frame behind a broken frame,
+        # no second close): fault enumeration over the programs that send closes after a data unit
+        dict(mc=(W, wcfg("fault", q)), max_progs=60 if q else 1500, allk=True, bset=[16, 126, 1024],
+             filt=lambda p: p["mfault"]["at"] == 0 and sum(1 for o in p["ops"] if o["op"] == "WC" and o.get("type") == 8) >= 2),
     ], assumptions=BASE_ASSUME + CONC_ASSUME,
         extra=lambda: conc.run_conc_check("C09", tier, 600 if q else 20000, 60 if q else 2000))
 
